@@ -34,6 +34,7 @@ import ScalesModel.Adapter.Resurrector
 import ScalesModel.Adapter.ResPool
 import ScalesModel.Adapter.HeapC09
 import ScalesModel.Adapter.ApertureHeap
+import ScalesModel.Adapter.ResMux
 open Scales
 
 def components : List Comp := [
@@ -69,7 +70,8 @@ def components : List Comp := [
   ⟨"lbgate", Scales.LB.compGate.run⟩,
   ⟨"heap9", Scales.Heap.comp9.run⟩,
   ⟨"aperture3", Scales.LB.comp3A.run⟩,
-  ⟨"aperture4", Scales.LB.comp4A.run⟩
+  ⟨"aperture4", Scales.LB.comp4A.run⟩,
+  ⟨"resmux", Scales.ResMux.comp.run⟩
 ]
 
 structure CaseAcc where
